@@ -1,5 +1,5 @@
 (* Oracle/ProofsInt.v — GetStaleTimestamp arithmetic and the adaptive update-interval state machine *)
-From Verif Require Import Oracle.Model Oracle.ModelInt Oracle.ProofsArith.
+From Verif Require Import Oracle.Model Oracle.ModelSys Oracle.ModelInt Oracle.ProofsArith.
 From Coq Require Import Lia ZifyBool.
 Ltac Zify.zify_post_hook ::= Z.div_mod_to_equations.
 Open Scope Z_scope.
@@ -84,20 +84,25 @@ Proof. intros. unfold rec_amount. rewrite Z.quot_div_nonneg by lia. lia. Qed.
 Definition okni (s : ist) (ni : Z) : Prop := Z.min min_interval (cfg s) <= ni <= cfg s.
 
 Lemma ok_unadj : forall s st ni, int_inv s -> check_unadjustable s = Some (st, ni) -> okni s ni.
-Proof. intros s st ni [C [L U]] H. unfold check_unadjustable, okni, min_interval in *.
-  destruct (cfg s <=? 500000000) eqn:E; inversion H; subst; lia. Qed.
+Proof. intros s st ni [C [L U]] H. unfold check_unadjustable in H. unfold okni.
+  destruct (cfg s <=? min_interval) eqn:E; [|discriminate H]. injection H as _ H2. rewrite <- H2.
+  unfold min_interval in *. lia. Qed.
 Lemma ok_normal : forall s cur st ni, okni s cur -> check_normal s cur = Some (st, ni) -> okni s ni.
 Proof. intros s cur st ni O H. unfold check_normal in H.
-  destruct ((min_interval <? cfg s) && (cur =? cfg s)); inversion H; subst; exact O. Qed.
+  destruct ((min_interval <? cfg s) && (cur =? cfg s)); [|discriminate H]. injection H as _ H2. rewrite <- H2. exact O. Qed.
 Lemma ok_adapting : forall s now req st ni, int_inv s -> check_adapting s now req = Some (st, ni) -> okni s ni.
-Proof. intros s now req st ni [C [L U]] H. unfold check_adapting, okni, min_interval, shrink_preserve in *.
-  destruct (negb (req =? 0) && (req <? ada s) && (500000000 <? ada s)) eqn:E; [inversion H; subst; lia|].
-  destruct (negb (ada s =? cfg s) && recent s now); inversion H; subst; lia. Qed.
+Proof. intros s now req st ni [C [L U]] H. unfold check_adapting in H. unfold okni.
+  destruct (negb (req =? 0) && (req <? ada s) && (min_interval <? ada s)) eqn:E.
+  - injection H as _ H2. rewrite <- H2. unfold min_interval, shrink_preserve in *. lia.
+  - destruct (negb (ada s =? cfg s) && recent s now); [|discriminate H]. injection H as _ H2. rewrite <- H2. lia.
+Qed.
 Lemma ok_recovering : forall s now st ni, int_inv s -> last_tick s <= now -> check_recovering s now = Some (st, ni) -> okni s ni.
 Proof. intros s now st ni [C [L U]] Ht H. pose proof (rec_amount_nonneg (now - last_tick s) ltac:(lia)) as R.
-  unfold check_recovering, okni, min_interval in *.
-  destruct ((ada s =? cfg s) || recent s now); [discriminate|].
-  destruct (cfg s <? ada s + rec_amount (now - last_tick s)) eqn:E; inversion H; subst; lia. Qed.
+  unfold check_recovering in H. unfold okni.
+  destruct ((ada s =? cfg s) || recent s now); [discriminate H|].
+  injection H as _ H2. rewrite <- H2. set (ra := rec_amount (now - last_tick s)) in *.
+  destruct (cfg s <? ada s + ra) eqn:E; lia.
+Qed.
 
 Lemma next_interval_inv : forall s now req,
   int_inv s -> last_tick s <= now ->
@@ -109,19 +114,19 @@ Proof.
   assert (O : forall st ni, chosen = Some (st, ni) -> okni s ni).
   { intros st ni H. unfold chosen, first_some in H.
     destruct (negb (req =? 0)).
-    - destruct (check_unadjustable s) as [[a b]|] eqn:E1; [inversion H; subst; eapply ok_unadj; eauto|].
+    - destruct (check_unadjustable s) as [[a b]|] eqn:E1; rewrite ?E1 in H; cbv beta iota in H; [injection H as <- <-; eapply ok_unadj; eauto|].
       eapply ok_adapting; eauto.
-    - destruct (check_unadjustable s) as [[a b]|] eqn:E1; [inversion H; subst; eapply ok_unadj; eauto|].
-      destruct (check_adapting s now 0) as [[a b]|] eqn:E2; [inversion H; subst; eapply ok_adapting; eauto|].
-      destruct (check_normal s (ada s)) as [[a b]|] eqn:E3; [inversion H; subst; eapply ok_normal; [|eauto]; unfold okni; lia|].
+    - destruct (check_unadjustable s) as [[a b]|] eqn:E1; rewrite ?E1 in H; cbv beta iota in H; [injection H as <- <-; eapply ok_unadj; eauto|].
+      destruct (check_adapting s now req) as [[a b]|] eqn:E2; rewrite ?E2 in H; cbv beta iota in H; [injection H as <- <-; eapply ok_adapting; eauto|].
+      destruct (check_normal s (ada s)) as [[a b]|] eqn:E3; rewrite ?E3 in H; cbv beta iota in H; [injection H as <- <-; eapply ok_normal; [|eauto]; unfold okni; lia|].
       eapply ok_recovering; eauto. }
-  destruct chosen as [[st ni]|]; [|cbn; repeat split; auto].
+  destruct chosen as [[st ni]|]; [|cbn [fst snd cfg ada last_tick]; repeat split; auto].
   specialize (O st ni eq_refl).
   assert (O' : forall st' ni', match st with
         | ISRecovering => match check_normal s ni with Some r => r | None => (st, ni) end
         | _ => (st, ni) end = (st', ni') -> okni s ni').
-  { intros st' ni' H. destruct st; try (inversion H; subst; exact O).
-    destruct (check_normal s ni) as [[a b]|] eqn:E; inversion H; subst; [eapply ok_normal; eauto|exact O]. }
+  { intros st' ni' H. destruct st; try (injection H as _ <-; exact O).
+    destruct (check_normal s ni) as [[a b]|] eqn:E; injection H as _ <-; [eapply ok_normal; eauto|exact O]. }
   destruct (match st with ISRecovering => _ | _ => _ end) as [st' ni']. specialize (O' st' ni' eq_refl).
   cbn [fst snd cfg ada last_tick]. unfold int_inv, okni in *. cbn [cfg ada]. repeat split; lia.
 Qed.
@@ -163,3 +168,64 @@ Qed.
 
 Lemma irun_inv : forall ops s, int_inv s -> int_inv (fold_left istep ops s).
 Proof. induction ops as [|o ops IH]; intros s I; cbn; auto. apply IH, istep_inv, I. Qed.
+
+(* ---------- arrival (call level) ---------- *)
+Section Arrival.
+Variable pd_ns : Z -> Z.                                   (* PD's clock (ns) at local time t *)
+Hypothesis pd_ns_mono : forall a b, a <= b -> pd_ns a <= pd_ns b.
+
+(* calls = (ts, clock reading at the call); every ts had been issued when its call read the clock *)
+Definition call_ok (c : Z * Z) : Prop := extract_physical (fst c) * 1000000 <= pd_ns (snd c).
+Definition rec_ok (r : option (Z * Z)) (hi : Z) : Prop :=
+  match r with None => True | Some (l, a) => extract_physical l * 1000000 <= pd_ns a /\ a <= hi end.
+Definition rec_le (r r' : option (Z * Z)) : Prop :=
+  match r, r' with
+  | None, _ => True
+  | Some _, None => False
+  | Some (l, a), Some (l', a') => l <= l' /\ a <= a'
+  end.
+
+Lemma rec_le_trans : forall a b c, rec_le a b -> rec_le b c -> rec_le a c.
+Proof.
+  intros [[l a]|] [[l1 a1]|] [[l2 a2]|]; cbn; intros; try lia; try contradiction; auto.
+Qed.
+
+Lemma set_last_arr_step : forall r ts now hi,
+  rec_ok r hi -> call_ok (ts, now) -> hi <= now ->
+  rec_ok (set_last_arr r ts now) now /\ rec_le r (set_last_arr r ts now).
+Proof.
+  intros r ts now hi R C H. unfold call_ok in C. cbn [fst snd] in C. destruct r as [[l a]|]; cbn [set_last_arr rec_ok rec_le] in *.
+  - destruct R as [R1 R2]. destruct (ts <=? l) eqn:E; cbn [rec_ok rec_le].
+    + repeat split; lia.
+    + assert (Z.max now a = now) by lia. rewrite H0. repeat split; lia.
+  - split; [split; lia|exact Logic.I].
+Qed.
+
+(* any sequence of calls whose clock readings do not go backwards *)
+Fixpoint clock_sorted (hi : Z) (cs : list (Z * Z)) : Prop :=
+  match cs with [] => True | (ts, now) :: r => hi <= now /\ clock_sorted now r end.
+Fixpoint last_clock (hi : Z) (cs : list (Z * Z)) : Z := match cs with [] => hi | (_, now) :: r => last_clock now r end.
+
+Lemma arrival_run : forall cs r hi,
+  rec_ok r hi -> Forall call_ok cs -> clock_sorted hi cs ->
+  let r' := fold_left (fun r c => set_last_arr r (fst c) (snd c)) cs r in
+  rec_ok r' (last_clock hi cs) /\ rec_le r r'.
+Proof.
+  induction cs as [|[ts now] cs IH]; intros r hi R F S; cbn [fold_left last_clock clock_sorted fst snd] in *.
+  - split; [exact R|]. destruct r as [[l a]|]; cbn; [lia|exact Logic.I].
+  - destruct S as [S1 S2]. inversion F; subst.
+    destruct (set_last_arr_step r ts now hi R H1 S1) as [R' L'].
+    destruct (IH _ now R' H2 S2) as [R'' L'']. split; [exact R''|].
+    eapply rec_le_trans; eauto.
+Qed.
+End Arrival.
+
+(* ---------- interval operations do not touch the published timestamp ---------- *)
+Lemma prun_proj : forall pd es s,
+  fst (prun pd s es) = run pd (fst s) (sys_events es) /\ snd (prun pd s es) = fold_left istep (int_ops es) (snd s).
+Proof.
+  intros pd. induction es as [|e es IH]; intros s; cbn [prun fold_left sys_events int_ops flat_map]; auto.
+  destruct e as [e|o]; cbn [pstep app].
+  - destruct (IH (step pd (fst s) e, snd s)) as [A B]. unfold prun in *. rewrite A, B. split; reflexivity.
+  - destruct (IH (fst s, istep (snd s) o)) as [A B]. unfold prun in *. rewrite A, B. split; reflexivity.
+Qed.
